@@ -172,7 +172,8 @@ def run_property(pid, tier, seed):
         functions.append({"target": driver.contract_name(c), "file": "python/gtirb/" + fi.file,
                           "lines": list(fi.lines), "ast_sha256_16": fi.ast_hash(), "obligations": len(ob),
                           **({"verified_part": c.part_note} if getattr(c, "part_note", None) else {}),
-                          **({"statements_dropped": c.dropped} if getattr(c, "dropped", None) else {})})
+                          **({"statements_dropped": c.dropped} if getattr(c, "dropped", None) else {}),
+                          **({"keyword_arguments_dropped": c.dropped_kwargs} if getattr(c, "dropped_kwargs", None) else {})})
     exit_code = 0
     replay_dir = os.path.join(OUT_ROOT, "replays", pid)
     lines = []
